@@ -62,7 +62,10 @@ class C17:
             for a, b in pairs:
                 oa, _ = pc.strip_notes(impl_raw.get(a.id, [b"crash"]))
                 ob, _ = pc.strip_notes(impl_raw.get(b.id, [b"crash"]))
-                if oa[:1] == [b"crash"] or ob[:1] == [b"crash"]:
+                # crashes are reported by the differential run above; a scenario that could not bind its sockets here
+                # (block held by another check's process at this moment) has been judged there in a fresh block
+                skipped = ([b"crash"], [b"setup-fail"], [b"start-fail"], [b"config-fail"])
+                if oa[:1] in skipped or ob[:1] in skipped:
                     continue
                 ba, bb = a.meta["block"].encode(), b.meta["block"].encode()
                 ob = [t.replace(bb, ba) for t in ob]
